@@ -23,6 +23,8 @@ var AssumedLib = []string{
 	"sync.(RW)Mutex: Lock/RLock acquire (monitor model: protected state is havocked and the lock invariant assumed), Unlock/RUnlock release (lock invariant asserted when declared)",
 	"time.Now: symbolic monotone clock; Time.Add/Sub/After/Before/Since/Unix: integer arithmetic on nanoseconds",
 	"cilium/ebpf (*Map).Put/Update/Delete: only read their key/value arguments, no effect on Go state, unconstrained error",
+	"net.IP.Equal(a,b) <=> ip_key(a) == ip_key(b) and net.IP.String() = ip_str(ip_key(a)) with ip_str injective: ip_key is an uninterpreted, extensional function of the address bytes standing for the Equal-equivalence class (4-byte and 16-byte forms of one address may share a key; nothing else is assumed)",
+	"github.com/insomniacslk/dhcp/dhcpv4: With*/Opt*/New*/Get*/Is*/Has* functions and the read-only accessors of a message (RequestedIPAddress, MessageType, Options.Get, ...) allocate new objects and do not write existing memory; results unconstrained",
 	"net.HardwareAddr.String: an (uninterpreted) function of the address bytes; crypto/rand.Read: writes only into its argument's backing array",
 	"zap, fmt.Sprint*, strings, strconv, errors, math, unicode, context, sync/atomic, prometheus: no panic, no effect on modelled state, unconstrained results",
 }
@@ -75,6 +77,21 @@ func isNoEffect(full string, fn *types.Func) bool {
 	if p == "bytes" {
 		sig := fn.Type().(*types.Signature)
 		return sig.Recv() == nil
+	}
+	if p == "github.com/insomniacslk/dhcp/dhcpv4" {
+		// constructors of options / modifiers / replies and read-only accessors of a message:
+		// they allocate new objects and copy their arguments, existing memory is not written
+		n := fn.Name()
+		for _, pre := range []string{"With", "Opt", "New", "Get", "Is", "Has"} {
+			if strings.HasPrefix(n, pre) {
+				return true
+			}
+		}
+		switch n {
+		case "RequestedIPAddress", "MessageType", "ServerIdentifier", "HostName", "Summary", "String", "ToBytes", "ClassIdentifier", "ParameterRequestList", "IPAddressLeaseTime", "FromBytes":
+			return true
+		}
+		return false
 	}
 	if p == "encoding/hex" {
 		return fn.Name() == "EncodeToString" || fn.Name() == "DecodeString" || fn.Name() == "Dump"
@@ -239,6 +256,19 @@ func init() {
 		return []smt.Term{r}
 	}
 
+	// net.IP.Equal / String through the equivalence-class key (see ipKey)
+	libModels["(net.IP).Equal"] = func(fv *funcVerifier, st *State, call *ast.CallExpr, fn *types.Func) []smt.Term {
+		sel := ast.Unparen(call.Fun).(*ast.SelectorExpr)
+		a := fv.evalExpr(st, sel.X)
+		b := fv.evalExpr(st, call.Args[0])
+		return []smt.Term{fv.c.Let("ipeq", smt.Eq(fv.ipKey(st, a), fv.ipKey(st, b)))}
+	}
+	libModels["(net.IP).String"] = func(fv *funcVerifier, st *State, call *ast.CallExpr, fn *types.Func) []smt.Term {
+		sel := ast.Unparen(call.Fun).(*ast.SelectorExpr)
+		a := fv.evalExpr(st, sel.X)
+		return []smt.Term{fv.c.Let("ipstr", smt.App(StrSort, "ip_str", fv.ipKey(st, a)))}
+	}
+
 	// cilium/ebpf Map.Put/Update/Delete: kernel map writes; key/value are only read, no
 	// effect on the modelled Go state; the error result is unconstrained
 	for _, name := range []string{"Put", "Update", "Delete"} {
@@ -351,6 +381,33 @@ func (fv *funcVerifier) hwaddrStr(st *State, hw smt.Term) smt.Term {
 			" :pattern (" + sa.S + " " + sb.S + ")))", Sort: smt.Bool}, "hwaddr_str")
 	}
 	return smt.App(StrSort, "hwaddr_str", smt.Select(fv.heapGet(st, key), slArr(hw)), slOff(hw), slLen(hw))
+}
+
+// ipKey is the identity of the net.IP.Equal equivalence class of the address held
+// by the slice ip in state st: a function of the byte window only (extensional), so
+// that a.Equal(b) <=> ipKey(a) == ipKey(b). Nothing is assumed about windows of
+// different lengths (a 4-byte address and its 16-byte form MAY have the same key).
+func (fv *funcVerifier) ipKey(st *State, ip smt.Term) smt.Term {
+	key := fv.memKey(types.Typ[types.Uint8])
+	fv.instFrames(key, slArr(ip))
+	if !fv.c.Has("ip_key") {
+		fv.c.DeclareFun("ip_key", []string{smt.Arr(smt.Int, smt.Int), smt.Int, smt.Int}, smt.Int)
+		a, b := smt.Term{S: "ik_a", Sort: smt.Arr(smt.Int, smt.Int)}, smt.Term{S: "ik_b", Sort: smt.Arr(smt.Int, smt.Int)}
+		oa, ob, n := smt.Term{S: "ik_oa", Sort: smt.Int}, smt.Term{S: "ik_ob", Sort: smt.Int}, smt.Term{S: "ik_n", Sort: smt.Int}
+		i := smt.Term{S: "ik_i", Sort: smt.Int}
+		sa := smt.App(smt.Int, "ip_key", a, oa, n)
+		sb := smt.App(smt.Int, "ip_key", b, ob, n)
+		fv.c.Axiom("ip_key_ext", smt.Term{S: "(forall ((ik_a (Array Int Int)) (ik_oa Int) (ik_b (Array Int Int)) (ik_ob Int) (ik_n Int)) (! " +
+			smt.Implies(smt.Ne(sa, sb), smt.Exists([]smt.Term{i}, smt.And(smt.Ge(i, smt.IntLit(0)), smt.Lt(i, n),
+				smt.Ne(smt.Select(a, smt.Add(oa, i)), smt.Select(b, smt.Add(ob, i)))))).S +
+			" :pattern (" + sa.S + " " + sb.S + ")))", Sort: smt.Bool}, "ip_key")
+		// String() is an injective function of the class
+		fv.c.DeclareFun("ip_str", []string{smt.Int}, StrSort)
+		fv.c.DeclareFun("ip_unstr", []string{StrSort}, smt.Int)
+		k := smt.Term{S: "ik_k", Sort: smt.Int}
+		fv.c.Axiom("ip_str_inj", smt.Forall([]smt.Term{k}, smt.Eq(smt.App(smt.Int, "ip_unstr", smt.App(StrSort, "ip_str", k)), k), smt.App(StrSort, "ip_str", k)), "ip_str")
+	}
+	return smt.App(smt.Int, "ip_key", smt.Select(fv.heapGet(st, key), slArr(ip)), slOff(ip), slLen(ip))
 }
 
 func (fv *funcVerifier) lockOp(st *State, mu ast.Expr, acquire bool, call *ast.CallExpr) {
